@@ -9,6 +9,7 @@ every recorded call (conformance of the code with the model: DRIFT only).
 
 from __future__ import annotations
 
+import gc
 import os
 import shutil
 import time
@@ -37,6 +38,7 @@ def _job(item):
     pid = os.getpid()
     d = _PROC_DIR.get(pid)
     if d is None:
+        gc.disable()  # forked worker: short-lived, cyclic GC only causes copy-on-write faults
         d = _PROC_DIR[pid] = os.path.join(base, f"p{pid}")
         os.makedirs(d, exist_ok=True)
         ad.setup(Path(d))
@@ -164,7 +166,13 @@ def execute(ctx: Ctx, behs: list[dict]) -> list[dict]:
     try:
         _PROC_DIR.clear()
         items = [(b, str(base), i) for i, b in enumerate(behs)]
-        traces = [ad.expand(t) for t in parallel_map(_job, items, chunksize=64)]
+        gc.freeze()
+        try:
+            traces = [ad.expand(t) for t in parallel_map(_job, items, chunksize=64)]
+        finally:
+            gc.unfreeze()
+            gc.enable()
+            _PROC_DIR.clear()
         for pd in os.listdir(base):
             left = [x for x in os.listdir(base / pd) if x != "tmp"]
             if left:
@@ -283,6 +291,7 @@ def replay(ctx: Ctx, rec: dict) -> int:
     traces = execute(ctx, [rec["behaviour"]])
     verdicts = ctx.validate("FsIsolationTrace", [slim(t) for t in traces])
     print("replayed:", _describe(traces[0]))
+    shutil.rmtree(ctx.work, ignore_errors=True)
     bad = [c for c, _ in verdicts.get(0, []) if c in VERDICT]
     if bad:
         for c in bad:
